@@ -34,6 +34,12 @@ CLAIMED = {
          "requires distinct handles to denote distinct local resources and the state-variable names of a procedure to be pairwise different, different from '.stack'/'.pc' (svOK: assumed of the generated procTable, not proved of the compiler); the procedure's PreAmble is a dynamically dispatched call with an assumed open-world contract; two genuine defects were repaired first (fix: cb880fd8, 4e2075a7). "
          "Proof hints (/verif/hints.json: unsat cores of earlier runs) select the hypotheses offered to the solver first; the full VC is the fallback and soundness does not depend on the file.",
          "contract-based deductive verification: WP over go/ssa, unbounded loop invariants with cut assertions, abstract-value contracts of the tla layer, z3/cvc5"),
+ "C07": ("Deductive proof of strict two-phase locking for the shared-variable manager (localshared.go), per function and for all states: the shared variable is read, written, indexed, committed or rolled back only while the sharer holds the lock (obligation at every call into the shared LocalArchetypeResource); "
+         "the lock (a capacity-one channel used as a semaphore, with ghost send/receive counts) is taken only on first access, a timed-out acquisition returns ErrCriticalSectionAborted having changed nothing, every method keeps 'tokens put in minus taken out == hasLock', "
+         "and the token is given back only by Commit/Abort, after the shared variable has been committed / restored to the last committed value (obligation at every release call); PreCommit, Close and a section that never touched the variable touch nothing.",
+         "Thread-modular: each method is verified against its contract for an arbitrary state of the other sharers. The step from 'every sharer follows strict 2PL on a capacity-one semaphore' to 'committed sections are serializable in commit order, no lost update / dirty read' is the classical 2PL theorem, argued in DESIGN.md section 3 (C07), not mechanised; "
+         "time.After is modelled as returning a fresh channel the runtime sends on; the channel is assumed never closed (nothing in the package closes it); GetState (persistence snapshot; conditional deferred release) and fairness/liveness of the timed acquisition (no deadlock because every wait is bounded) are NOT covered by obligations.",
+         "contract-based deductive verification: WP over go/ssa, ghost channel send/receive counts as lock tokens, cut-point obligations at every access and release, z3/cvc5"),
  "C12": ("Deductive proof for the grow-only counter: Init/Read/Write/Merge against the partial-map view (Merge = pointwise max on the union of keys, Write adds to one slot, Read = wrapped sum), and, as pure lemmas over those contracts, that Merge is commutative, associative and idempotent and Write (non-negative, no overflow) is an inflation.",
          "NOT covered: AWORSet, LWWSet and their gob pairs (not decided by this check; two genuine defects in them are recorded in DESIGN.md section 4 from probes, not from this check); the sum over an unordered map is axiomatised by its insert step; counts are int32 with wrap-around modelled.",
          "contract-based deductive verification: functional contracts + semilattice lemmas, z3/cvc5"),
